@@ -20,7 +20,7 @@ import (
 type c09Case struct {
 	Results  []vegeta.Result
 	Seed     uint64 // selects interior cut offsets for streams too large to cut everywhere
-	PoisonAt int    // >= 0: before this record the JSON encoder is handed a result it cannot encode (year 12000): a failed Encode call must not leave anything behind
+	PoisonAt int    // >= 0: before this record the JSON and gob encoders are handed a result they cannot encode (year 12000; a zone of -1 minute): a failed Encode call must not leave part of a record behind nor spoil what follows
 }
 
 // c09Encode encodes rs one call at a time; only records whose Encode call succeeded
@@ -29,20 +29,27 @@ func c09Encode(codec vgen.Codec, c c09Case) (data []byte, ends []int, written []
 	var buf bytes.Buffer
 	enc := codec.Enc(&buf)
 	for i := range c.Results {
-		if codec.Name == "json" && c.PoisonAt == i {
+		if codec.Name != "csv" && c.PoisonAt == i {
 			bad := c.Results[i]
-			bad.Timestamp = time.Date(12000, 1, 1, 0, 0, 0, 0, time.UTC)
+			if codec.Name == "json" {
+				bad.Timestamp = time.Date(12000, 1, 1, 0, 0, 0, 0, time.UTC)
+			} else {
+				// the binary form of a time has no room for a zone one minute west of UTC (what a results file
+				// converted from JSON with "...-00:01" timestamps holds)
+				bad.Timestamp = time.Date(2020, 9, 13, 12, 25, 40, 0, time.FixedZone("", -60))
+			}
 			before := buf.Len()
 			if perr := enc.Encode(&bad); perr == nil {
-				return nil, nil, nil, fmt.Errorf("harness assumption broken: the JSON encoder accepted a year-12000 timestamp")
+				return nil, nil, nil, fmt.Errorf("harness assumption broken: the %s encoder accepted the timestamp %v", codec.Name, bad.Timestamp)
 			}
-			if buf.Len() != before {
+			// gob announces its types ahead of the first value: those bytes are no record and may stay
+			if buf.Len() != before && codec.Name == "json" {
 				return nil, nil, nil, fmt.Errorf("json: a failed Encode call wrote %d bytes to the stream", buf.Len()-before)
 			}
 		}
 		r := c.Results[i]
 		if eerr := enc.Encode(&r); eerr != nil {
-			if codec.Name == "json" && c.PoisonAt >= 0 && c.PoisonAt <= i {
+			if codec.Name != "csv" && c.PoisonAt >= 0 && c.PoisonAt <= i {
 				continue // an encoder that refuses everything after a failure writes nothing: still a clean stream
 			}
 			return nil, nil, nil, fmt.Errorf("%s encode record %d: %w", codec.Name, i, eerr)
@@ -144,7 +151,9 @@ func TestC09Truncation(t *testing.T) {
 			c.Results = append(c.Results, vgen.Results(t, "rs2", 5, 15, vgen.ResultOpts{})...)
 		}
 		if rapid.IntRange(0, 4).Draw(t, "poison") == 0 {
-			c.PoisonAt = rapid.IntRange(0, len(c.Results)-1).Draw(t, "poisonat")
+			if c.PoisonAt = 0; rapid.Bool().Draw(t, "poisonlater") { // the very first call is special: gob sends its types with it
+				c.PoisonAt = rapid.IntRange(0, len(c.Results)-1).Draw(t, "poisonat")
+			}
 		}
 		var (
 			st  c09Stats
